@@ -34,14 +34,11 @@ theorem inv_conn {s s' : State} {c : ConnId} {a : CAct} (hi : Inv s)
   have heff := cstep_eff_holds hc
   have hreg := cstep_reg hc
   have hcreg := cstep_counted_reg hc
-  have hcl := hi.closing
   have hlc := hi.lockConn
-  have hls := hi.lockShut
-  have hlcl := hi.lockClose
   have hcu := cnt_update (f := s.conns) (x := x) hi.nodup hcid
   refine
     { nodup := ?_, absent := ?_, counter := ?_, lockConn := ?_, lockShut := ?_, lockClose := ?_,
-      closing := ?_, regNodup := ?_, reg := ?_, loc := ?_, nilDrained := ?_, afterNil := ?_,
+      closingS := ?_, closingC := ?_, regNodup := ?_, reg := ?_, loc := ?_, nilDrained := ?_, afterNil := ?_,
       errCtx := ?_, afterClose := ?_, sweep := ?_ }
   · cases e <;> exact hi.nodup
   · intro d hd
@@ -61,14 +58,21 @@ theorem inv_conn {s s' : State} {c : ConnId} {a : CAct} (hi : Inv s)
       cases e <;> simp only [applyEff, setConn, lockSpec, if_true] at * <;> grind
     · cases e <;> simp only [applyEff, setConn, lockSpec, if_neg hdc] at * <;> grind
   · -- lockShut
+    intro k
+    have hls := hi.lockShut k
     have hcc := hlc c
     have hlf := lockFree_iff s
     cases e <;> simp only [applyEff, setConn, lockSpec] at * <;> grind
   · -- lockClose
+    intro k
+    have hlcl := hi.lockClose k
     have hcc := hlc c
     have hlf := lockFree_iff s
     cases e <;> simp only [applyEff, setConn, lockSpec] at * <;> grind
-  · cases e <;> exact hcl
+  · have := hi.closingS
+    cases e <;> exact this
+  · have := hi.closingC
+    cases e <;> exact this
   · -- regNodup
     have hrc := hi.reg c
     have hrn := hi.regNodup
@@ -94,10 +98,10 @@ theorem inv_conn {s s' : State} {c : ConnId} {a : CAct} (hi : Inv s)
       cases e <;> simpa [applyEff, setConn] using hloc
     · cases e <;> simpa [applyEff, setConn, hdc] using hld
   · -- nilDrained
-    intro hs
-    have hs' : s.shut = .retNil := by cases e <;> exact hs
-    have h0 := hi.nilDrained hs'
-    have hsh : s.lock = .shutdown := hls.mpr (by simp [hs', shutHolds])
+    intro k hs
+    have hs' : (s.shuts k).pc = .retNil := by cases e <;> exact hs
+    have h0 := hi.nilDrained k hs'
+    have hsh : s.lock = .shutdown k := (hi.lockShut k).mpr (by simp [hs', shutHolds])
     have hcc := hlc c
     have hc0 := hi.counter
     have hpos : counted (s.conns c).pc = true → 1 ≤ cnt s.conns s.ids := cnt_pos_of_mem hcid
@@ -107,10 +111,10 @@ theorem inv_conn {s s' : State} {c : ConnId} {a : CAct} (hi : Inv s)
       have := hpos (by simp [hp, counted])
       omega
   · -- afterNil
-    intro hs d hd
-    have han := hi.afterNil
-    have hs' : s.shut = .retNil ∨ s.shut = .doneNil := by cases e <;> exact hs
-    have hclt : s.closing = true := by rw [hcl]; rcases hs' with h | h <;> simp [h, shutClosed]
+    intro k hs d hd
+    have han := hi.afterNil k
+    have hs' : (s.shuts k).pc = .retNil ∨ (s.shuts k).pc = .doneNil := by cases e <;> exact hs
+    have hclt : s.closing = true := hi.closingS k (by rcases hs' with h | h <;> simp [h, shutClosed])
     by_cases hdc : d = c
     · subst hdc
       have hd' : counted x.pc = true := by cases e <;> simpa [applyEff, setConn] using hd
@@ -122,11 +126,11 @@ theorem inv_conn {s s' : State} {c : ConnId} {a : CAct} (hi : Inv s)
   · have := hi.errCtx
     cases e <;> exact this
   · -- afterClose
-    intro hs d hd
-    have hac := hi.afterClose
-    have hs' : closeSwept s.close = true := by cases e <;> exact hs
-    have hclt : s.closing = true := by
-      rw [hcl]; revert hs'; cases s.close <;> simp [closeSwept, closeClosed]
+    intro k hs d hd
+    have hac := hi.afterClose k
+    have hs' : closeSwept (s.closes k) = true := by cases e <;> exact hs
+    have hclt : s.closing = true := hi.closingC k (by
+      revert hs'; cases s.closes k <;> simp [closeSwept, closeClosed])
     by_cases hdc : d = c
     · subst hdc
       have hd' : preReg x.pc = false := by cases e <;> simpa [applyEff, setConn] using hd
@@ -136,10 +140,10 @@ theorem inv_conn {s s' : State} {c : ConnId} {a : CAct} (hi : Inv s)
     · have h2 := hac hs' d
       cases e <;> simp only [applyEff, setConn, if_neg hdc] at * <;> grind
   · -- sweep: the map cannot change while Close holds the mutex
-    intro hs d hd
-    have hsw := hi.sweep
-    have hs' : s.close = .closedCh := by cases e <;> exact hs
-    have hlk : s.lock = .closer := hlcl.mpr (by simp [hs', closeHolds])
+    intro k hs d hd
+    have hsw := hi.sweep k
+    have hs' : s.closes k = .closedCh := by cases e <;> exact hs
+    have hlk : s.lock = .closer k := (hi.lockClose k).mpr (by simp [hs', closeHolds])
     have hnoc : holdsLock (s.conns c).pc = false := by
       cases hh : holdsLock (s.conns c).pc with
       | false => rfl
@@ -177,7 +181,13 @@ theorem inv_conn {s s' : State} {c : ConnId} {a : CAct} (hi : Inv s)
 /-- fields the invariant does not mention may change freely -/
 theorem inv_irrelevant {s : State} (hi : Inv s) (lo : Bool) (sv : SrvPC) (r : RPC) :
     Inv { s with listenerOpen := lo, serve := sv, runner := r } :=
-  ⟨hi.nodup, hi.absent, hi.counter, hi.lockConn, hi.lockShut, hi.lockClose, hi.closing, hi.regNodup,
+  ⟨hi.nodup, hi.absent, hi.counter, hi.lockConn, hi.lockShut, hi.lockClose, hi.closingS, hi.closingC, hi.regNodup,
+   hi.reg, hi.loc, hi.nilDrained, hi.afterNil, hi.errCtx, hi.afterClose, hi.sweep⟩
+
+/-- … and so may the ghost / bookkeeping fields of the callers -/
+theorem inv_ghost {s : State} (hi : Inv s) (rs rc : CallId) (ap ec : Bool) :
+    Inv { s with runShut := rs, runClose := rc, api := ap, everClosed := ec } :=
+  ⟨hi.nodup, hi.absent, hi.counter, hi.lockConn, hi.lockShut, hi.lockClose, hi.closingS, hi.closingC, hi.regNodup,
    hi.reg, hi.loc, hi.nilDrained, hi.afterNil, hi.errCtx, hi.afterClose, hi.sweep⟩
 
 /-- a change of connection records that keeps every control-relevant aspect -/
@@ -189,7 +199,8 @@ theorem inv_conns {s : State} {g : ConnId → Conn} (hi : Inv s)
     (habs : ∀ d, d ∉ s.ids → g d = {}) : Inv { s with conns := g } := by
   refine
     { nodup := hi.nodup, absent := habs, counter := ?_, lockConn := ?_, lockShut := hi.lockShut,
-      lockClose := hi.lockClose, closing := hi.closing, regNodup := hi.regNodup, reg := ?_, loc := ?_,
+      lockClose := hi.lockClose, closingS := hi.closingS, closingC := hi.closingC, regNodup := hi.regNodup,
+      reg := ?_, loc := ?_,
       nilDrained := hi.nilDrained, afterNil := ?_, errCtx := hi.errCtx, afterClose := ?_, sweep := ?_ }
   · show s.counter = cnt g s.ids
     rw [hi.counter]
@@ -197,19 +208,19 @@ theorem inv_conns {s : State} {g : ConnId → Conn} (hi : Inv s)
   · intro d; show holdsLock (g d).pc = true ↔ _; rw [(hg d).2.1]; exact hi.lockConn d
   · intro d; show _ ↔ inMap (g d).pc = true; rw [(hg d).2.2.1]; exact hi.reg d
   · intro d; exact (hg d).2.2.2.2.2.2
-  · intro hs d hd
+  · intro k hs d hd
     show (g d).regClosing = true
     rw [(hg d).2.2.2.2.1]
-    exact hi.afterNil hs d (by rw [← (hg d).1]; exact hd)
-  · intro hs d hd
+    exact hi.afterNil k hs d (by rw [← (hg d).1]; exact hd)
+  · intro k hs d hd
     show (g d).sockClosed = true ∨ (g d).regClosing = true
     rw [(hg d).2.2.2.2.1]
     have hd' : preReg (s.conns d).pc = false := by rw [← (hg d).2.2.2.1]; exact hd
-    rcases hi.afterClose hs d hd' with h | h
+    rcases hi.afterClose k hs d hd' with h | h
     · exact Or.inl ((hg d).2.2.2.2.2.1 h)
     · exact Or.inr h
-  · intro hs d hd
-    rcases hi.sweep hs d hd with h | h
+  · intro k hs d hd
+    rcases hi.sweep k hs d hd with h | h
     · exact Or.inl h
     · exact Or.inr ((hg d).2.2.2.2.2.1 h)
 
@@ -258,7 +269,8 @@ theorem inv_new {s : State} {c : ConnId} {x : Conn} (hi : Inv s) (hc : c ∉ s.i
   have hpx : preReg x.pc = true := by rcases hx with h | h <;> simp [h, preReg]
   refine
     { nodup := List.nodup_cons.mpr ⟨hc, hi.nodup⟩, absent := ?_, counter := ?_, lockConn := ?_,
-      lockShut := hi.lockShut, lockClose := hi.lockClose, closing := hi.closing, regNodup := hi.regNodup,
+      lockShut := hi.lockShut, lockClose := hi.lockClose, closingS := hi.closingS, closingC := hi.closingC,
+      regNodup := hi.regNodup,
       reg := ?_, loc := ?_, nilDrained := hi.nilDrained, afterNil := ?_, errCtx := hi.errCtx, afterClose := ?_,
       sweep := ?_ }
   · intro d hd
@@ -288,25 +300,195 @@ theorem inv_new {s : State} {c : ConnId} {x : Conn} (hi : Inv s) (hc : c ∉ s.i
     by_cases hd : d = c
     · subst hd; simpa [setConn] using hl s.closing
     · simpa [setConn, hd] using hi.loc d
-  · intro hs d hd
+  · intro k hs d hd
     by_cases hdc : d = c
     · subst hdc; simp [setConn, hcx] at hd
     · simp only [setConn, if_neg hdc] at hd ⊢
-      exact hi.afterNil hs d hd
-  · intro hs d hd
+      exact hi.afterNil k hs d hd
+  · intro k hs d hd
     by_cases hdc : d = c
     · subst hdc; simp [setConn, hpx] at hd
     · simp only [setConn, if_neg hdc] at hd ⊢
-      exact hi.afterClose hs d hd
-  · intro hs d hd
+      exact hi.afterClose k hs d hd
+  · intro k hs d hd
     have hdc : d ≠ c := by
       intro h; subst h
       have := (hi.reg d).mp hd
       rw [hold] at this
       simp [inMap, counted] at this
-    rcases hi.sweep hs d hd with h | h
+    rcases hi.sweep k hs d hd with h | h
     · exact Or.inl h
     · right; simpa [setConn, hdc] using h
+
+/-! ## the calls of `Shutdown` and `Close` -/
+
+/-- what the invariant says about call `k` of `Shutdown`, whose record is `x` -/
+structure SInv (s : State) (k : CallId) (x : SCall) : Prop where
+  lock : s.lock = .shutdown k ↔ shutHolds x.pc = true
+  closing : shutClosed x.pc = true → s.closing = true
+  nilDrained : x.pc = .retNil → s.counter = 0
+  afterNil : (x.pc = .retNil ∨ x.pc = .doneNil) →
+      ∀ c, counted (s.conns c).pc = true → (s.conns c).regClosing = true
+  errCtx : (x.pc = .retErr ∨ x.pc = .doneErr) → x.done.isSome = true
+
+/-- what the invariant says about call `k` of `Close`, which is at `x` -/
+structure CInv (s : State) (k : CallId) (x : CPC) : Prop where
+  lock : s.lock = .closer k ↔ closeHolds x = true
+  closing : closeClosed x = true → s.closing = true
+  afterClose : closeSwept x = true → ∀ c, preReg (s.conns c).pc = false →
+      (s.conns c).sockClosed = true ∨ (s.conns c).regClosing = true
+  sweep : x = .closedCh → ∀ c, c ∈ s.registered → c ∈ s.sweepLeft ∨ (s.conns c).sockClosed = true
+
+theorem Inv.sinv {s : State} (hi : Inv s) (k : CallId) : SInv s k (s.shuts k) :=
+  ⟨hi.lockShut k, hi.closingS k, hi.nilDrained k, hi.afterNil k, hi.errCtx k⟩
+
+theorem Inv.cinv {s : State} (hi : Inv s) (k : CallId) : CInv s k (s.closes k) :=
+  ⟨hi.lockClose k, hi.closingC k, hi.afterClose k, hi.sweep k⟩
+
+/-- how a step of call `k` (of Shutdown or of Close; `mine` = the mutex as held by it) may change the
+    mutex: not at all, take it when it is free, or give it back -/
+def LockMove (s : State) (mine l : Holder) : Prop :=
+  l = s.lock ∨ (s.lock = .none ∧ l = mine) ∨ (s.lock = mine ∧ l = .none)
+
+theorem lockMove_conn {s : State} {mine l : Holder} (hi : Inv s) (hm : ∀ c, mine ≠ .conn c)
+    (hl : LockMove s mine l) (c : ConnId) : holdsLock (s.conns c).pc = true ↔ l = .conn c := by
+  have := hi.lockConn c
+  rcases hl with h | ⟨h1, h2⟩ | ⟨h1, h2⟩
+  · rw [h]; exact this
+  · rw [h1] at this; rw [h2]
+    constructor
+    · intro h; exact absurd (this.mp h) (by simp)
+    · intro h; exact absurd h (hm c)
+  · rw [h1] at this; rw [h2]
+    constructor
+    · intro h; exact absurd (this.mp h) (hm c)
+    · intro h; exact absurd h (by simp)
+
+/-- for another holder `o` nothing changes -/
+theorem lockMove_other {s : State} {mine l o : Holder} (hl : LockMove s mine l) (ho : o ≠ mine)
+    (hn : o ≠ .none) : l = o ↔ s.lock = o := by
+  rcases hl with h | ⟨h1, h2⟩ | ⟨h1, h2⟩
+  · rw [h]
+  · rw [h1, h2]
+    constructor
+    · intro h; exact absurd h.symm ho
+    · intro h; exact absurd h.symm hn
+  · rw [h1, h2]
+    constructor
+    · intro h; exact absurd h.symm hn
+    · intro h; exact absurd h.symm ho
+
+theorem local_grow {s : State} {cl : Bool} (hi : Inv s) (hcl : cl = s.closing ∨ cl = true) (c : ConnId) :
+    Local cl (s.conns c) := by
+  rcases hcl with h | h
+  · rw [h]; exact hi.loc c
+  · rw [h]; exact (hi.loc c).toTrue
+
+theorem closing_grow {s : State} {cl : Bool} (hcl : cl = s.closing ∨ cl = true) (h : s.closing = true) :
+    cl = true := by
+  rcases hcl with h' | h'
+  · rw [h', h]
+  · exact h'
+
+/-- a step of call `k` of `Shutdown`: its record becomes `x`, the mutex moves as `LockMove` allows,
+    `closing` stays or becomes true; it is enough that `x` satisfies its clauses in the new state -/
+theorem inv_shutStep {s : State} {k : CallId} {x : SCall} {l : Holder} {cl : Bool} (hi : Inv s)
+    (hl : LockMove s (.shutdown k) l) (hcl : cl = s.closing ∨ cl = true)
+    (hx : SInv { s with lock := l, closing := cl } k x) :
+    Inv { setShut s k x with lock := l, closing := cl } := by
+  have hso : ∀ j, j ≠ k → (l = .shutdown j ↔ s.lock = .shutdown j) := fun j hj =>
+    lockMove_other hl (by intro h; exact hj (Holder.shutdown.inj h)) (by simp)
+  have hco : ∀ j, (l = .closer j ↔ s.lock = .closer j) := fun j =>
+    lockMove_other hl (by simp) (by simp)
+  have hlc : ∀ c, holdsLock (s.conns c).pc = true ↔ l = .conn c := lockMove_conn hi (by simp) hl
+  have hloc : ∀ c, Local cl (s.conns c) := local_grow hi hcl
+  refine
+    { nodup := hi.nodup, absent := hi.absent, counter := hi.counter,
+      lockConn := hlc, lockShut := ?_, lockClose := ?_, closingS := ?_,
+      closingC := ?_, regNodup := hi.regNodup, reg := hi.reg, loc := hloc, nilDrained := ?_,
+      afterNil := ?_, errCtx := ?_, afterClose := hi.afterClose, sweep := hi.sweep }
+  · intro j
+    show l = .shutdown j ↔ shutHolds (if j = k then x else s.shuts j).pc = true
+    by_cases hj : j = k
+    · subst hj; simp only [if_true]; exact hx.lock
+    · simp only [if_neg hj]; rw [hso j hj]; exact hi.lockShut j
+  · intro j
+    show l = .closer j ↔ closeHolds (s.closes j) = true
+    rw [hco j]; exact hi.lockClose j
+  · intro j
+    show shutClosed (if j = k then x else s.shuts j).pc = true → cl = true
+    by_cases hj : j = k
+    · subst hj; simp only [if_true]; exact hx.closing
+    · simp only [if_neg hj]; exact fun h => closing_grow hcl (hi.closingS j h)
+  · intro j h
+    exact closing_grow hcl (hi.closingC j h)
+  · intro j
+    show (if j = k then x else s.shuts j).pc = .retNil → s.counter = 0
+    by_cases hj : j = k
+    · subst hj; simp only [if_true]; exact hx.nilDrained
+    · simp only [if_neg hj]; exact hi.nilDrained j
+  · intro j
+    show ((if j = k then x else s.shuts j).pc = .retNil ∨ (if j = k then x else s.shuts j).pc = .doneNil) → _
+    by_cases hj : j = k
+    · subst hj; simp only [if_true]; exact hx.afterNil
+    · simp only [if_neg hj]; exact hi.afterNil j
+  · intro j
+    show ((if j = k then x else s.shuts j).pc = .retErr ∨ (if j = k then x else s.shuts j).pc = .doneErr) →
+      (if j = k then x else s.shuts j).done.isSome = true
+    by_cases hj : j = k
+    · subst hj; simp only [if_true]; exact hx.errCtx
+    · simp only [if_neg hj]; exact hi.errCtx j
+
+/-- a step of call `k` of `Close` that leaves the connections alone: it moves to `x`, the mutex moves
+    as `LockMove` allows, `closing` stays or becomes true, the list of its walk over the map changes
+    only while it holds the mutex -/
+theorem inv_closeStep {s : State} {k : CallId} {x : CPC} {l : Holder} {cl : Bool} {sw : List ConnId}
+    (hi : Inv s) (hl : LockMove s (.closer k) l) (hcl : cl = s.closing ∨ cl = true)
+    (hsw : sw = s.sweepLeft ∨ s.lock = .closer k)
+    (hx : CInv { s with lock := l, closing := cl, sweepLeft := sw } k x) :
+    Inv { setClose s k x with lock := l, closing := cl, sweepLeft := sw } := by
+  have hso : ∀ j, (l = .shutdown j ↔ s.lock = .shutdown j) := fun j =>
+    lockMove_other hl (by simp) (by simp)
+  have hco : ∀ j, j ≠ k → (l = .closer j ↔ s.lock = .closer j) := fun j hj =>
+    lockMove_other hl (by intro h; exact hj (Holder.closer.inj h)) (by simp)
+  have hlc : ∀ c, holdsLock (s.conns c).pc = true ↔ l = .conn c := lockMove_conn hi (by simp) hl
+  have hloc : ∀ c, Local cl (s.conns c) := local_grow hi hcl
+  refine
+    { nodup := hi.nodup, absent := hi.absent, counter := hi.counter,
+      lockConn := hlc, lockShut := ?_, lockClose := ?_, closingS := ?_,
+      closingC := ?_, regNodup := hi.regNodup, reg := hi.reg, loc := hloc,
+      nilDrained := hi.nilDrained, afterNil := hi.afterNil, errCtx := hi.errCtx, afterClose := ?_, sweep := ?_ }
+  · intro j
+    show l = .shutdown j ↔ shutHolds (s.shuts j).pc = true
+    rw [hso j]; exact hi.lockShut j
+  · intro j
+    show l = .closer j ↔ closeHolds (if j = k then x else s.closes j) = true
+    by_cases hj : j = k
+    · subst hj; simp only [if_true]; exact hx.lock
+    · simp only [if_neg hj]; rw [hco j hj]; exact hi.lockClose j
+  · intro j h
+    exact closing_grow hcl (hi.closingS j h)
+  · intro j
+    show closeClosed (if j = k then x else s.closes j) = true → cl = true
+    by_cases hj : j = k
+    · subst hj; simp only [if_true]; exact hx.closing
+    · simp only [if_neg hj]; exact fun h => closing_grow hcl (hi.closingC j h)
+  · intro j
+    show closeSwept (if j = k then x else s.closes j) = true → _
+    by_cases hj : j = k
+    · subst hj; simp only [if_true]; exact hx.afterClose
+    · simp only [if_neg hj]; exact hi.afterClose j
+  · intro j
+    show (if j = k then x else s.closes j) = .closedCh → ∀ c, c ∈ s.registered → c ∈ sw ∨ _
+    by_cases hj : j = k
+    · subst hj; simp only [if_true]; exact hx.sweep
+    · simp only [if_neg hj]
+      intro hjc
+      rcases hsw with h | h
+      · rw [h]; exact hi.sweep j hjc
+      · have := (hi.lockClose j).mpr (by simp [hjc, closeHolds])
+        rw [h] at this
+        exact absurd (Holder.closer.inj this).symm hj
 
 end C11
 end FwdVerif
